@@ -28,7 +28,7 @@ theorem handleComment_refine (o : Opts) (f : Nat) (s : Src) (line : Nat) (h : s.
 def ResRel : CRes → Res → Prop
   | .tok k v cst, .tok k' v' st r =>
     k = k' ∧ v = v' ∧ cst.line = st.line ∧ cst.lastCr = st.lastCr ∧ cst.src.view = r ∧ cst.src.Inv
-  | .err e l, .err e' l' => e = e' ∧ l = l'
+  | .err e l _, .err e' l' => e = e' ∧ l = l'
   | _, _ => False
 
 /-- The part of the concrete state the abstract tokenizer also has. -/
@@ -36,7 +36,7 @@ def CSt.abs (c : CSt) : St := { line := c.line, lastCr := c.lastCr }
 
 theorem scan_tok_rel (k : Kind) : ∀ {rc : CScan (List Char)} {ra : Scan (List Char)}, ScanRel rc ra →
     ResRel (match rc with
-            | .err e l => .err e l
+            | .err e l s => .err e l s
             | .ok v l s2 => .tok k v { src := s2, line := l, lastCr := false })
            (match ra with
             | .err e l => .err e l
